@@ -59,6 +59,33 @@ def bincount (l : List Nat) (minlength : Nat := 0) : List Nat :=
   let m := max minlength (if l.isEmpty then 0 else l.foldl max 0 + 1)
   (List.range m).map (fun v => l.count v)
 
+/-- `slice(start, stop, step).indices(len)` followed by `range(...)`: the positions Python/NumPy
+select for `a[start:stop:step]` on a sequence of length `len` (step ≠ 0). -/
+def sliceIdx (len : Nat) (start stop : Option Int) (step : Int) : List Nat :=
+  let n : Int := len
+  if step > 0 then
+    let s := match start with
+      | none => 0
+      | some s => if s < 0 then max (s + n) 0 else min s n
+    let e := match stop with
+      | none => n
+      | some e => if e < 0 then max (e + n) 0 else min e n
+    let cnt := if s < e then ((e - s + step - 1) / step).toNat else 0
+    (List.range cnt).map fun (k : Nat) => (s + Int.ofNat k * step).toNat
+  else if step < 0 then
+    let s := match start with
+      | none => n - 1
+      | some s => if s < 0 then max (s + n) (-1) else min s (n - 1)
+    let e := match stop with
+      | none => -1
+      | some e => if e < 0 then max (e + n) (-1) else min e (n - 1)
+    let cnt := if e < s then ((s - e + (-step) - 1) / (-step)).toNat else 0
+    (List.range cnt).map fun (k : Nat) => (s + Int.ofNat k * step).toNat
+  else []
+
+/-- `a[idx]` for a list of positions -/
+def take {α : Type} (a : List α) (idx : List Nat) : List α := idx.filterMap (a[·]?)
+
 /-- insert `x` before the first element `y` with `le x y` (stable insertion) -/
 def insertBy {α : Type} (le : α → α → Bool) (x : α) : List α → List α
   | [] => [x]
